@@ -66,6 +66,12 @@ def run(tier, seed):
     for sp in speeches:
         for _ in range(per_speech):
             entries.append({"reading": gen_reading(rnd), "stem": gen_stem(rnd), "speech": sp})
+    # the shortest valid lines (one-character readings, one- and two-byte stems, the shortest speech names)
+    short_sp = sorted(speeches, key=lambda sp: len(json.dumps(sp)))[:12]
+    for rd in ["あ", "ん", "a", "z", "ー"]:
+        for stem in ["1", "A", "/", ";", "é", "亜", "x9"]:
+            entries.append({"reading": rd, "stem": stem, "speech": rnd.choice(short_sp)})
+            entries.append({"reading": rd, "stem": stem, "speech": rnd.choice(speeches)})
     # a few hand-picked adversarial stems
     for stem in ["/", ";", "//", "/一般名詞/", ";comment", "形容詞", "あ/い", "1", "食べ/"]:
         entries.append({"reading": gen_reading(rnd), "stem": stem, "speech": rnd.choice(speeches)})
